@@ -19,7 +19,7 @@ type miniTarget struct {
 }
 
 // functions translated (package, Go name, Lean definition name in Got.Generated.Ast<Pkg>)
-var miniTargets = []miniTarget{{"sortx", "Search", "search"}}
+var miniTargets = []miniTarget{{"sortx", "Search", "search"}, {"loom", "convertPowerOfTwo", "convertPowerOfTwo"}}
 
 type miniTr struct {
 	info     *types.Info
@@ -90,7 +90,7 @@ func (t *miniTr) expr(e ast.Expr) string {
 			return "(.add " + t.expr(x.X) + " " + t.expr(x.Y) + ")"
 		case token.SUB:
 			return "(.sub " + t.expr(x.X) + " " + t.expr(x.Y) + ")"
-		case token.SHR:
+		case token.SHL, token.SHR:
 			tv, ok := t.info.Types[x.Y]
 			if !ok || tv.Value == nil || tv.Value.Kind() != constant.Int {
 				t.fail(e, "shift by a non-constant")
@@ -110,6 +110,9 @@ func (t *miniTr) expr(e ast.Expr) string {
 			if !isInt {
 				t.fail(e, "shift of a non-64-bit integer type %s", ty)
 				return "(.lit 0)"
+			}
+			if x.Op == token.SHL {
+				return fmt.Sprintf("(.shl %s %d)", t.expr(x.X), k)
 			}
 			if unsigned {
 				return fmt.Sprintf("(.shrU %s %d)", t.expr(x.X), k)
@@ -245,6 +248,12 @@ func (t *miniTr) stmt(s ast.Stmt, ind string) string {
 			if id, ok := x.Lhs[0].(*ast.Ident); ok {
 				if x.Tok == token.ASSIGN && t.ints[id.Name] {
 					return fmt.Sprintf(".assign %q %s", t.names[id.Name], t.expr(x.Rhs[0]))
+				}
+				// x op= e  is  x = x op (e)
+				if op, ok := map[token.Token]token.Token{token.ADD_ASSIGN: token.ADD, token.SUB_ASSIGN: token.SUB,
+					token.SHL_ASSIGN: token.SHL, token.SHR_ASSIGN: token.SHR}[x.Tok]; ok && t.ints[id.Name] {
+					return fmt.Sprintf(".assign %q %s", t.names[id.Name],
+						t.expr(&ast.BinaryExpr{X: id, Op: op, Y: x.Rhs[0]}))
 				}
 				if x.Tok == token.DEFINE {
 					if ty := t.typeOf(x.Rhs[0]); ty != nil {
